@@ -178,6 +178,10 @@ structure Cfg where
       RaptorQ/Raptor block count)?  The byte length is the XML library's, so this is an explicit parameter - every
       theorem holds for every such function; the correspondence feeds the observed outcome. -/
   fdtFits : AbsFdt → Bool := fun _ => true
+  /-- `is_xml_str`: every character of the string is a Char of XML 1.0 (section 2.2).  Strings are opaque in this model,
+      so the predicate is a parameter; the driver instantiates it on the UTF-8 bytes of the hex token (no C0 control
+      other than TAB / LF / CR, not U+FFFE / U+FFFF). -/
+  xmlOk : String → Bool := fun _ => true
   deriving Inhabited
 
 /-- `FileDesc` + the two `TransferInfo` fields that decide about FDT membership -/
@@ -286,8 +290,12 @@ def publish (s : State) (now : Nat) : State × Pub :=
 
 /-- `Fdt::publish(now)`: when `FileDesc::new` refuses the FDT object (`?` before anything is changed) the call returns
     `Err` and the sender is exactly as before: nothing queued, id not consumed, `last_publish` untouched -/
+def admitted (s : State) (now : Nat) : Bool :=
+  -- `to_xml` refuses FDT-level groups that XML 1.0 cannot carry; `FileDesc::new` refuses an FDT object that does not fit
+  (s.cfg.groups.getD []).all s.cfg.xmlOk && s.cfg.fdtFits (instanceAt s now)
+
 def tryPublish (s : State) (now : Nat) : State × List Pub :=
-  if s.cfg.fdtFits (instanceAt s now) then ((publish s now).1, [(publish s now).2]) else (s, [])
+  if admitted s now then ((publish s now).1, [(publish s now).2]) else (s, [])
 
 /-- `Fdt::current_fdt_will_expire(now)` -/
 def needRepublish (s : State) (now : Nat) : Bool :=
@@ -360,9 +368,14 @@ def effectiveOti (dflt : Oti) (a : ObjAttrs) : Rs (Option Oti) :=
         else .ok (some (setZ o (max q.2.2.2 1)))
     else .ok (some o)
 
-/-- `Fdt::add_object`: refused once complete; TOI taken from the allocator *before* `FileDesc::new` may fail -/
+/-- the metadata strings of an object that end up in the FDT are XML 1.0 strings -/
+def attrsXmlOk (ok : String → Bool) (a : ObjAttrs) : Bool :=
+  ok a.location && ok a.contentType && a.md5.all ok && a.etag.all ok && (a.groups.getD []).all ok
+
+/-- `Fdt::add_object`: refused once complete, refused when a metadata string cannot be carried by XML 1.0 (the FDT
+    would not be well-formed); TOI taken from the allocator *before* `FileDesc::new` may fail -/
 def add (s : State) (a : ObjAttrs) : State × AddRes :=
-  if s.complete = some true then (s, .err) else
+  if s.complete = some true ∨ attrsXmlOk s.cfg.xmlOk a = false then (s, .err) else
   let toi := s.nextToi
   let s1 := { s with nextToi := succToi s.cfg.toiBits s.nextToi }
   match effectiveOti s.cfg.oti a with
